@@ -151,11 +151,11 @@ def explore(ck, n, sc, np, xrun=True):
             calls.append(("mape", (float(pred[0]), float(truth[0])), float(sc.mape(pred[:1], truth[:1]))))
             calls.append(("bias", (float(pred[0]), float(truth[0])), float(sc.bias(pred[:1], truth[:1]))))
     if xrun:
-        numlib.float_cross(ck, calls)
+        numlib.float_cross(ck, calls, exe="drv_scores")
 
 
 def main():
-    ck = vlib.Check(PROP, pkg="numeric", props="Proofs.Props.C19", driver="drv_num",
+    ck = vlib.Check(PROP, pkg="numeric", props="Proofs.Props.C19", driver="drv_scores",
                     model_files=["GenReal/Scores.lean"],
                     trusted=["tools/py2lean (translator) incl. its recognition of the top-level np.mean / np.nanmean(axis=0) as 'mean over the samples of the emitted pointwise term' (validated each run: Float cross-run of the term + oracle comparison of the reduction on arrays)",
                              "reshaping of (n,), (n,1), (n,k) inputs and the ValueError for inconsistent shapes are glue, exercised by the harness only",
@@ -170,7 +170,7 @@ def main():
     from typhon.retrieval import scores as sc
     xrun = True
     try:
-        ck.driver(["planck 0 0"], exe="drv_num")
+        ck.driver(["planck 0 0"], exe="drv_scores")
     except vlib.InfraError:
         xrun = False
         ck.notes.append("Float driver not available (build broken): cross-run skipped")
